@@ -27,6 +27,10 @@ LOC_EXPECT = {"lineno": ("start", 0), "col_offset": ("start", 1), "end_lineno": 
               "end_col_offset": ("end", 1)}
 # functions whose contract orders their location sources (confirmed by reading): the word assembler receives the tree built so
 # far and the piece that follows it, and spans run from the former's start to the latter's end
+NO_STARRED_HERE = {("Subscript", "slice"), ("keyword", "value"), ("Attribute", "value"), ("Call", "func"), ("Slice", "lower"),
+                   ("Slice", "upper"), ("Slice", "step"), ("NamedExpr", "value"), ("IfExp", "test"), ("IfExp", "body"),
+                   ("IfExp", "orelse"), ("Lambda", "body"), ("UnaryOp", "operand"), ("Compare", "left"), ("Await", "value"),
+                   ("Subscript", "value"), ("DictComp", "key"), ("DictComp", "value"), ("ListComp", "elt"), ("GeneratorExp", "elt")}
 ORDERED_SPAN_IDIOMS = {"Parser._append_node_or_token"}
 MAX_DEPTH = 12
 
@@ -2138,6 +2142,12 @@ class Interp:
             if not ok:
                 bad.append(m)
         kind_rule = "A6-scalar-kind" if t in ("identifier", "string", "int", "constant") else "S1-field-kind"
+        # positions where CPython's own parser never puts a Starred (and its compiler rejects one)
+        if t == "expr" and not in_list and (cls, f.name) in NO_STARRED_HERE:
+            st = [m for m in ms if isinstance(m, Node) and m.cls == "Starred"]
+            self.emit("S1-starred-position", key, "fail" if st else "ok", where,
+                      f"`{cls}.{f.name}` can receive a Starred node: CPython builds a one-element Tuple there (`a[*b]` is `a[(*b,)]`) and "
+                      f"compile() refuses a bare Starred (\"can't use starred expression here\")" if st else "")
         if bad:
             self.emit(kind_rule, key, "fail", where,
                       f"field `{f.name}` of ast.{cls} ({t}{'*' if f.seq else ''}) can receive {mk_union(bad)!r}")
